@@ -7,14 +7,14 @@
 // are case markers / statistics, "PROP-FAIL <Cxx> <signature> ..." lines report that the
 // property itself failed on the implementation (evaluated here, independent of the model).
 //
-//   idl parse <hex text>   -> ok <canonical dump> | err <line>:<col>:<ofs> <class> | panic <site>
-//                             (the model remembers the schema of the last successful parse)
-//   idl print              -> <hex of PrettyPrint(last schema)>
-//   ws new <root>          -> counts <c1,c2,...>       (NewWireSchema(last schema, root))
-//   ws init <root>         -> counts <c1,c2,...>       (order in which the GENERATED Encoder.Init
-//                             code of otelstef fetches the struct field counts, read off the Go
-//                             source with go/ast and simulated here)
-//   ws deser <hex bytes>   -> ok <n> <hex of Serialize> | err:<eof|ueof|overflow|limit>
+//	idl parse <hex text>   -> ok <canonical dump> | err <line>:<col>:<ofs> <class> | panic <site>
+//	                          (the model remembers the schema of the last successful parse)
+//	idl print              -> <hex of PrettyPrint(last schema)>
+//	ws new <root>          -> counts <c1,c2,...>       (NewWireSchema(last schema, root))
+//	ws init <root>         -> counts <c1,c2,...>       (order in which the GENERATED Encoder.Init
+//	                          code of otelstef fetches the struct field counts, read off the Go
+//	                          source with go/ast and simulated here)
+//	ws deser <hex bytes>   -> ok <n> <hex of Serialize> | err:<eof|ueof|overflow|limit>
 //
 // modes (argv[1]): c12 (parser inputs), c13 (print/parse, wire schema, serde), all.
 package main
@@ -35,6 +35,7 @@ import (
 	"sort"
 	"strconv"
 	"strings"
+	"time"
 
 	"github.com/splunk/stef/go/otel/otelstef"
 	"github.com/splunk/stef/go/pkg/idl"
@@ -318,7 +319,24 @@ type parseResult struct {
 	out    string
 }
 
-func realParse(text string) (r parseResult) {
+// realParse runs idl.Parse under a watchdog: C12 demands termination, and a parser that spins
+// cannot be stopped from outside, so on a timeout the input is reported and the harness exits.
+func realParse(text string) parseResult {
+	done := make(chan parseResult, 1)
+	go func() { done <- realParse1(text) }()
+	select {
+	case r := <-done:
+		return r
+	case <-time.After(1500 * time.Millisecond):
+		propFail("C12", "parser-hang", "idl.Parse did not return within 1.5 s on input %s", quote(text))
+		note("harness stops here: the spinning parser goroutine cannot be cancelled")
+		out.Flush()
+		os.Exit(0)
+	}
+	panic("unreachable")
+}
+
+func realParse1(text string) (r parseResult) {
 	defer func() {
 		if p := recover(); p != nil {
 			r = parseResult{kind: "panic", site: slug(fmt.Sprint(p))}
